@@ -174,7 +174,8 @@ void run_C10(void) {
   const int th = G.thorough;
   // products: every kernel, ref and avx2, ell classes x operand families
   for (int k = 0; k < N_KERNELS; k++)
-    for (int avx2 = 0; avx2 <= 1; avx2++)
+    for (int avx2 = 0; avx2 <= 1; avx2++) {
+      if (!q120_kernel_has((q120_kernel_t)k, avx2)) continue;
       for (size_t e = 0; e < ARRAY_LEN(ELLS_Q); e++)
         for (int fx = 0; fx < QF_N; fx++)
           for (int fy = 0; fy < QF_N; fy++) {
@@ -189,11 +190,13 @@ void run_C10(void) {
             sample("%" PRIu64 " output lanes congruent to the exact sum of products", lanes);
             case_end(ell >= 1);
           }
+    }
   // sampled lengths in [0, 10000]
   for (unsigned t = 0; t < (th ? 30000u : 1000u); t++) {
     uint64_t h = mix64(t * 977 + 5);
     uint64_t ell = h % 10001;
     int k = (int)((h >> 20) % N_KERNELS), avx2 = (int)((h >> 24) & 1);
+    if (!q120_kernel_has((q120_kernel_t)k, avx2)) avx2 = !avx2;
     int fx = (int)((h >> 28) % QF_N), fy = (int)((h >> 32) % QF_N);
     char key[128];
     snprintf(key, sizeof key, "%s_%s|sampled-ell", q120_kernel_name[k], avx2 ? "avx2" : "ref");
